@@ -87,7 +87,7 @@ impl Property for C13 {
         "a generated note (all link kinds, multi-byte and astral characters before links, LF and CRLF) in a small library, root or sub-directory; byte spans of every link and block come from an independent scan and are converted to LSP positions (UTF-16 columns, CRLF-aware) by the harness's own line table; probes: positions strictly inside each link span, just outside, and elsewhere on the line; oracle: go-to-definition and prepare-rename act iff the position is strictly inside a link span (the two boundary positions are not judged), the definition target is the note the link resolves to, prepare-rename's range is the destination span, document symbols name the heading lines, references name the first line of the linking block; non-trivial = a non-ASCII character or a CRLF precedes a probed link".into()
     }
     fn assumptions(&self) -> Vec<String> {
-        vec!["positions are UTF-16 code units as the LSP default prescribes".into(), "single-line links only".into()]
+        vec!["positions are UTF-16 code units as the LSP default prescribes".into(), "for links wrapped over lines only the positions next to their two ends are probed".into()]
     }
     fn domain_off(&self) -> Vec<&'static str> {
         vec!["item_first_list", "item_first_heading", "empty_item", "html_block", "refdef", "link_title", "inline_html", "escape"]
@@ -129,7 +129,41 @@ impl Property for C13 {
         let lines_tbl = Lines::new(&case.text);
         for sp in &spans {
             if sp.start.0 != sp.end.0 {
-                continue; // multi-line link: not in this check's domain
+                // a link wrapped over lines: probe just after its start and just before its end
+                if sp.line_text_non_ascii_before && !feature_on("non_ascii_before_link") {
+                    continue;
+                }
+                let mut pts = vec![(sp.start.0 as u32, sp.start.1 as u32 + 1)];
+                if sp.end.1 >= 2 {
+                    pts.push((sp.end.0 as u32, sp.end.1 as u32 - 1));
+                }
+                for (l, c) in pts {
+                    probes += 1;
+                    stats.class("multi-line-link-probe");
+                    for method in ["textDocument/definition", "textDocument/prepareRename"] {
+                        let ans = srv.pos_request(method, &case.key, l, c);
+                        match acts(&ans) {
+                            Some(true) => {}
+                            Some(false) => {
+                                srv.kill();
+                                return Verdict::fail(
+                                    format!("c13|{}:missed|multi-line", method.rsplit('/').next().unwrap()),
+                                    format!("{} at line {} character {}: inside the wrapped link {:?} ({:?}..{:?}), server did not act\ntext:\n{}", method, l, c, sp.dest, sp.start, sp.end, super::common::show(&case.text)),
+                                );
+                            }
+                            None => {
+                                if let Some(rec) = srv.loop_death() {
+                                    srv.kill();
+                                    return Verdict::fail(rec.signature(), format!("the server loop died: {} {}", rec.file, rec.message));
+                                }
+                                srv.kill();
+                                return Verdict::fail(format!("c13|no-answer|{}", method), format!("{:?}", ans));
+                            }
+                        }
+                    }
+                }
+                nontrivial = true;
+                continue;
             }
             if sp.line_text_non_ascii_before && !feature_on("non_ascii_before_link") {
                 continue;
@@ -151,7 +185,8 @@ impl Property for C13 {
                 outside.push(a - 2);
             }
             // a neighbouring link must not cover the outside probes
-            let covered = |c: u32| spans.iter().any(|o| o.start.0 == sp.start.0 && (c as usize) >= o.start.1 && (c as usize) <= o.end.1);
+            let here = sp.start.0;
+            let covered = |c: u32| spans.iter().any(|o| (o.start.0, o.start.1) <= (here, c as usize) && (here, c as usize) <= (o.end.0, o.end.1));
             outside.retain(|c| !covered(*c));
             for (cols, expect_in) in [(&inside, true), (&outside, false)] {
                 for c in cols.iter() {
